@@ -599,6 +599,20 @@ func (p *Proxy) handle(ctx *Context, conn net.Conn, brw *bufio.ReadWriter) error
 		for urlregex, buckets := range ptsconn.LocalBuckets {
 			if match, _ := regexp.MatchString(urlregex, req.URL.String()); match {
 				if rangeStart := proxyutil.GetRangeStart(res); rangeStart > -1 {
+					// A ContentLength of 0 with a body means "unknown" to
+					// res.Write, which looks at the body before it decides how to
+					// frame the message; settle that now, so that the dumped head
+					// below has the length of the head that will be written.
+					if res.ContentLength == 0 && res.Body != nil {
+						var first [1]byte
+						if n, _ := res.Body.Read(first[:]); n == 1 {
+							res.ContentLength = -1
+							res.Body = struct {
+								io.Reader
+								io.Closer
+							}{io.MultiReader(bytes.NewReader(first[:]), res.Body), res.Body}
+						}
+					}
 					dump, err := httputil.DumpResponse(res, false)
 					if err != nil {
 						return err
